@@ -403,7 +403,10 @@ def check_operation(ctx: Ctx, inp) -> None:
         if sec is not None:
             loc = {"apiKey-header": "header", "apiKey-query": "query", "apiKey-cookie": "cookie", "basic": "header", "bearer": "header"}[sec["kind"]]
             cont = container_of(case, loc) or {}
-            if not any(k.lower() == sec["name"].lower() for k in cont):
+            declared = any(p["in"] == loc and (p["name"].lower() == sec["name"].lower() if loc == "header" else p["name"] == sec["name"]) for p in plan["params"])
+            # a parameter the document itself declares under that name and location keeps its own definition (incl. `required`):
+            # the two statements of the document disagree there, and the declared one is what is judged above
+            if not declared and not any(k.lower() == sec["name"].lower() for k in cont):
                 ctx.disagree(f"required-missing:security-{loc}", f"active security parameter {sec['name']!r} is missing from {loc}: {dict(cont)!r}", input=inp, case=summary)
         declared: list = []
         undeclared: list = []
@@ -531,8 +534,52 @@ def pattern_case(draw):
     return {"plan": plan, "config": {"allow_x00": True, "codec": "utf-8", "with_security_parameters": True}, "draws": 15}
 
 
+# ---- the rewriting function on its own ------------------------------------------------------------------------------
+
+
+@st.composite
+def rewrite_case(draw):
+    node = draw(rx.pattern(2))
+    w = draw(rx.matching(node))
+    lo = draw(st.sampled_from([None, 0, 1, max(0, len(w) - 1), len(w)]))
+    hi = draw(st.sampled_from([None, len(w), len(w) + 1, len(w) + 3]))
+    if lo is None and hi is None:
+        hi = len(w) + 1
+    return {"pattern": rx.render(node), "min": lo, "max": hi, "start": node[1], "end": node[3], "witness": w}
+
+
+def check_rewrite(ctx: Ctx, inp) -> None:
+    """``update_quantifier(pattern, minLength, maxLength)``: whatever it does to the quantifiers, the result is a regular
+    expression and keeps the anchors the author wrote (a lost or garbled anchor changes which strings conform)."""
+    import re
+
+    from schemathesis.specs.openapi.patterns import update_quantifier
+
+    pattern = inp["pattern"]
+    try:
+        rewritten = update_quantifier(pattern, inp["min"], inp["max"])
+    except Exception as exc:  # noqa: BLE001
+        ctx.case(classes=["raised"])
+        ctx.disagree(f"rewrite:raised:{type(exc).__name__}", f"update_quantifier({pattern!r}, {inp['min']}, {inp['max']}) raised {exc!r}"[:300], input=inp)
+        return
+    changed = rewritten != pattern
+    ctx.case(nontrivial=inp if changed else None, classes=[f"start={inp['start'] or 'none'}", f"end={inp['end'] or 'none'}", "rewritten" if changed else "unchanged"], sample={"pattern": pattern, "min": inp["min"], "max": inp["max"], "rewritten": rewritten})
+    try:
+        re.compile(rewritten)
+    except re.error as exc:
+        ctx.disagree("rewrite:uncompilable-pattern", f"{pattern!r} min={inp['min']} max={inp['max']} -> {rewritten!r}: {exc}", input=inp)
+        return
+    for anchor, at_start in ((inp["start"], True), (inp["end"], False)):
+        if anchor in ("^", "$", "\\A", "\\Z"):
+            kept = rewritten.startswith(anchor) if at_start else rewritten.endswith(anchor)
+            if not kept:
+                ctx.disagree("rewrite:anchor-lost" + (":mixed-width-anchors" if len(inp["start"]) != len(inp["end"]) else ""), f"{pattern!r} min={inp['min']} max={inp['max']} -> {rewritten!r}: the {'leading' if at_start else 'trailing'} anchor {anchor!r} is gone", input=inp)
+                return
+
+
 SUBS = [
     Sub("operations", fn=check_operation, strategy=plan_and_config, quick=(16, 40), thorough=(16, 1500), shrink_quick=False, timeout_quick=600, timeout_thorough=3400),
+    Sub("rewrite", fn=check_rewrite, strategy=rewrite_case, quick=(4, 3000), thorough=(16, 60000), timeout_quick=300, timeout_thorough=3000),
     Sub("pattern_length", fn=check_operation, strategy=pattern_case, quick=(16, 40), thorough=(16, 1200), shrink_quick=False, timeout_quick=600, timeout_thorough=3400),
 ]
 FLOOR = {"operations": 2000, "pattern_length": 2000}
